@@ -102,10 +102,25 @@ def apply_rewrites():
                 except OSError as e:
                     problems.append((pid, "rewrite %s: %s" % (rw["file"], e)))
                     continue
+                if rw.get("extract"):
+                    # only the named top-level functions of the file (text from `func name(` to the closing
+                    # brace in column 0), behind the given header: a function of a build variant whose file
+                    # cannot be mounted as a whole
+                    parts, missing = [], []
+                    for fn in rw["extract"]:
+                        m = re.search(r"^func %s\(.*?^}\n" % re.escape(fn), txt, re.M | re.S)
+                        if m:
+                            parts.append(m.group(0))
+                        else:
+                            missing.append(fn)
+                    if missing:
+                        problems.append((pid, "rewrite for %s: function(s) %s not found in %s" % (pid, ",".join(missing), rw["file"])))
+                    txt = rw.get("header", "") + "\n".join(parts)
                 hits = 0
                 for old, new in rw["subs"]:
                     hits += 1 if old in txt else 0
                     txt = txt.replace(old, new)
+                txt += rw.get("append", "")
                 if hits < rw.get("min_hits", 1):
                     problems.append((pid, "rewrite for %s no longer applies to %s (%d of %d anchors)" % (pid, rw["file"], hits, rw.get("min_hits", 1))))
                 dst = os.path.join(BUILD, "overlay_src", "_mount", rw["mount"])
